@@ -6,6 +6,25 @@ TRUST = ("gcc 12 + ASan/UBSan runtimes; CPython 3.11; generators and reference o
          "harness programs under /verif/harness; the guarded hook code in /repo; open findings in known_findings.json are masked out of the "
          "randomized workload and exercised by deterministic probes (vf/probes.py)")
 CHECKS = {
+ 'C03': dict(tech='fault injection into conforming populations + severity/exit-status and per-instance dump monitor (reference model = generated population) under ASan+UBSan',
+             level='fault_enumeration',
+             text='Fault enumeration: every listed violation class is injected singly (a) at every instance of a fixed matrix schema covering all attribute kinds '
+                  '(deterministic, every run) and (b) at sampled positions of seeded generated populations; the real reader must end worse than USERMSG with '
+                  'non-zero p21read exit, and all other baseline-clean instances must be loaded with their file values (confinement).',
+             ref='DESIGN.md section 2 C03'),
+ 'C09': dict(tech='exhaustive token enumeration driven through STEPattribute::STEPread/STEPwrite in-process (ASan+UBSan) vs. an independent Part 21 literal lexer',
+             text='Exploration, exhaustive for the bounded part: all token strings up to length 5 (quick) / 7 (thorough) over each kind\'s alphabet in 4 delimiter '
+                  'contexts + boundary numerals are read by the real attribute reader; severity, value, is_null and stream position are compared with a reference lexer; '
+                  'writer probes over integer/real grids must be grammar-conforming and read back.',
+             ref='DESIGN.md section 2 C09'),
+ 'C18': dict(tech='reference-model monitor: generated schemas through the real exp2python, py_compile + import in a subprocess, class/type introspection vs. the schema model',
+             text='Exploration: seeded schemas (inheritance shapes x Python keyword/builtin identifiers in every role) are compiled by exp2python; the module must compile, '
+                  'import against the bundled runtime, and its classes (bases, constructor parameters) and type definitions must equal the model.',
+             ref='DESIGN.md section 2 C18'),
+ 'C19': dict(tech='reference-model monitor over the real Python aggregate classes: exhaustive breadth-first walk of reachable object states + seeded random operation sequences',
+             text='Exploration, exhaustive for the bounded part: every mutation sequence up to length 4 (quick) / 6 (thorough) on 362 container configurations is replayed on the '
+                  'real ARRAY/LIST/BAG/SET classes in a subprocess and co-simulated with a list/multiset/set model that enforces only what the property states.',
+             ref='DESIGN.md section 2 C19'),
  'C01': dict(tech='reference-model monitor over recorded executions (independent Part 21 parser vs. files written by the real library) under ASan+UBSan',
              text='Exploration: seeded generated schemas x conforming populations x text variants are read and written by the real p21read/STEPfile '
                   'built with ASan+UBSan from the current tree; an independent Part 21 parser compares the written population value by value with the '
